@@ -49,7 +49,7 @@ HardOf(dv) == [s \in Sig |-> dv[s].hard]
 One(S) == {RandomElement(S)}
 \* (a random draw must be bound by \E before it is used twice: LET bodies are re-evaluated at every use)
 KindOf(r) == IF r <= 4 THEN "tss" ELSE IF r = 5 THEN "ibc" ELSE "tssLong"
-ModeOf(r) == CASE r <= 3 -> "ok" [] r = 4 -> "noGroup" [] r = 5 -> "noNonces" [] r = 6 -> "inactive" [] r = 7 -> "maxAtt0" [] OTHER -> "ok"
+ModeOf(r) == CASE r <= 3 -> "ok" [] r = 4 -> "noGroup" [] r = 5 -> "noNonces" [] r = 6 -> "inactive" [] r = 7 -> "maxAtt0" [] r = 8 -> "panic" [] OTHER -> "ok"
 \* mostly the creator (the rules for strangers are simple refusals)
 Sender(t) == IF Exists(t) /\ RandomElement(1..10) <= 7 THEN cfg[t].creator ELSE RandomElement(Acct)   \* used once per step
 TunId == RandomElement(1..(IF RandomElement(1..12) = 1 \/ count = 0 THEN count + 1 ELSE count))
@@ -80,7 +80,7 @@ GFeed ==
         /\ SetFeed(s, p)
         /\ script' = Append(script, [e |-> "SetFeed", s |-> s, p |-> p, st |-> IF p = 0 THEN "notReady" ELSE "avail"])
 GRoute ==
-    \E r \in One(1..8) : \E m \in {ModeOf(r)} :
+    \E r \in One(1..9) : \E m \in {ModeOf(r)} :
         /\ SetRoute(m)
         /\ script' = Append(script, [e |-> "SetRoute", m |-> m])
 GFund ==
